@@ -64,6 +64,9 @@ CHECKS = {
     "C10": ("exploration", E1 + " (finite grid of circuits x noise levels x seeds with a frozen acceptance band)",
             "Every bundled valid mock circuit (8 cheapest in quick, all 19 in thorough) and RC/RQ ladders x three noise levels x seeds 0..K-1 through the default automatic test: estimated/injected noise inside the frozen band [0.33, 5], suggested num_RC inside its reported limits, wrapper agrees with the exploratory entry point; drift-corrupted counterparts must have >= 2x the pseudo chi-squared at low noise. This is the weakest claim of the set: a statistical property decided on an enumerated grid only.",
             "Band calibrated once on the unchanged tree (observed 0.84..2.55) and frozen; changes that mis-calibrate by less than about 2x are not detectable.", "DESIGN.md section 4, C10"),
+    "C19": ("exploration", E1 + " (CLI commands x inputs x formats x filters, differential against the API in the same process)",
+            "pyimpspec.cli.main() is run in-process for parse (mock specifiers and generated files x three formats x six filter sets, output to files, --average), circuit --simulate (plotted data sets captured), fit and drt (methods x options x formats x filters) and every subset/order of the six mock-specifier keys; every printed or written number is compared with the API call with the same settings (csv exact, json to its printed decimals, md to the printed digits).",
+            "Commands run in-process with the Agg backend; plots are observed through the data sets handed to the plot functions.", "DESIGN.md section 4, C19"),
 }
 
 NOT_YET = "check not built yet in this round (planned, see DESIGN.md section 4)"
